@@ -1205,6 +1205,7 @@ def check_C14(rep, tier):
     trace = os.path.join(vlib.OUT, "c14.trace.ndjson")
     done = set()
     n = 0
+    outcomes = {}
     with open(trace, "w") as tf:
         for r in sh.results():
             i = r["i"]
@@ -1216,6 +1217,8 @@ def check_C14(rep, tier):
             tf.write(json.dumps({"ev": "doc", "kind": kinds[i][0], "i": i}) + "\n")
             for c in r["calls"]:
                 tf.write(json.dumps({"ev": "call", "entry": c["entry"], "res": c["res"]}) + "\n")
+                ck = f"{kinds[i][0]}/{c['entry']}/{c['res']}"
+                outcomes[ck] = outcomes.get(ck, 0) + 1
                 if c["res"] not in ("value", "error"):
                     doc = sh.scenario(i)["doc"]
                     unusual = sorted(f"{k}={v}" for k, v in doc.items() if v not in ("ok", "one", "link", "plain", "list", "normal", "null", "none", "owner", "present", "spki_ed25519"))
@@ -1228,6 +1231,13 @@ def check_C14(rep, tier):
         culprit = next((i for i in ids if i not in done), None)
         rep.mismatch({"kind": "process_died", "rc": rc}, lambda c=culprit: {"scn": sh.scenario(c) if c is not None else None})
     rep.cov["evaluations"] = n
+    rep.cov["call_outcomes"] = outcomes
+    # vacuity: the usual document of every kind must get THROUGH each entry point (an all-default layout verifies, an
+    # all-default link file is accepted), otherwise the unusual fields are never reached
+    for need in ("layout/final_product_verification/value", "linkfile/final_product_verification/value",
+                 "linkfile/block_verify/value", "keymat/key_import/value"):
+        if not outcomes.get(need):
+            raise ToolError(f"vacuous C14 lattice: no call with outcome {need}")
     total, rejected, tst = validate_trace(trace, "Trace_Robust", "Trace_Robust.cfg", "t14", reset_ev="doc")
     rep.cov["traces_validated_against_impl"] = total - len(rejected)
     rep.cov["parts"]["trace"] = {"runs": total, "rejected": len(rejected), "states": tst.distinct}
